@@ -328,7 +328,8 @@ impl<A: BoundedOgreAllocator<Tracked> + Send + Sync + 'static> Handle for OgreUn
     fn intact(&self) -> bool { (**self).intact() }
     fn clone_h(&self) -> Option<Box<dyn Handle>> { None }
     fn bulk(&self, _n: u32) -> Vec<Box<dyn Handle>> { vec![] }
-    fn into_arc(self: Box<Self>) -> Box<dyn Handle> { Box::new((*self).into_ogre_arc()) }
+    // (both conversion paths: the method and the `From` impl; which one is a function of the value, so a case stays deterministic)
+    fn into_arc(self: Box<Self>) -> Box<dyn Handle> { if ((**self).val >> 32) & 1 == 0 { Box::new((*self).into_ogre_arc()) } else { Box::new(OgreArc::from(*self)) } }
     fn count(&self) -> Option<u32> { None }
     fn is_unique(&self) -> bool { true }
 }
@@ -388,7 +389,7 @@ impl Property for C14Handles {
     }
     fn cases(&self, tier: Tier) -> u32 { match tier { Tier::Quick => 40_000, Tier::Thorough => 400_000 } }
     fn rule(&self) -> String {
-        "generated: pool allocator (atomic | full-sync free list, 8 slots of which the harness occupies 0 / 5 / 6 / 7 beforehand, so that new values re-use slots other threads have just released) x 2..3 threads of 1..6 ops over {OgreArc::new_with, new_with_clones::<3>, OgreUnique::new, clone, increment_references(2)+2 raw copies, into_ogre_arc, deref+check, drop, hand a handle to the next thread, take handed-over handles} x optionally every thread starts with a clone of one shared value x schedule; values carry a destructor reporting to a ledger; \
+        "generated: pool allocator (atomic | full-sync free list, 8 slots of which the harness occupies 0 / 5 / 6 / 7 beforehand, so that new values re-use slots other threads have just released) x 2..3 threads of 1..6 ops over {OgreArc::new_with, new_with_clones::<3>, OgreUnique::new, clone, increment_references(2)+2 raw copies, into_ogre_arc / OgreArc::from(unique) (alternating by value), deref+check, drop, hand a handle to the next thread, take handed-over handles} x optionally every thread starts with a clone of one shared value x schedule; values carry a destructor reporting to a ledger; \
          oracle: every deref of a live handle yields the value written at creation (intact); when all threads are done references_count() of every value equals its number of live shared handles and no value with a live handle was destroyed; after the remaining handles are dropped every value was destroyed exactly once, no destructor ran on garbage, and all 8 pool slots can be allocated again; \
          non-trivial: a clone or a drop of a handle overlapped a drop of another handle to the same value (a thread was switched out inside such an operation while another thread held a handle to the same value)".into()
     }
